@@ -157,6 +157,28 @@ func execStore(op *proto.StoreOp, resp *proto.Resp) {
 		if err != nil {
 			fail(err)
 		}
+	case "rawdump":
+		// all raw key-value pairs of the instance (keys as hex, stored bytes as they are), in store order
+		lo, hi := storage.DataInstanceKeyRange(data.InstanceID())
+		out := make(chan *storage.KeyValue)
+		var wg sync.WaitGroup
+		wg.Add(1)
+		go func() {
+			defer wg.Done()
+			for kv := range out {
+				if kv == nil || kv.K == nil {
+					return
+				}
+				resp.Keys = append(resp.Keys, hex.EncodeToString(kv.K))
+				resp.Values = append(resp.Values, append([]byte(nil), kv.V...))
+			}
+		}()
+		err := db.RawRangeQuery(lo, hi, false, out, nil)
+		close(out)
+		wg.Wait()
+		if err != nil {
+			fail(err)
+		}
 	default:
 		fail(fmt.Errorf("unknown store op %q", op.Op))
 	}
